@@ -109,7 +109,9 @@ def meta_of(kind, hashes):
         if kind == "tricky":
             msgs = [{"type": "user", "text": "line one\n---\n  abcd 1-2\n\"quoted\"\n"},
                     {"type": "assistant", "text": "\"base_commit_sha\": \"" + "c" * 40 + "\"\n---"},
-                    {"type": "tool_use", "name": "edit", "input": {"path": "---", "text": "a\n---\nb"}}]
+                    {"type": "tool_use", "name": "edit", "input": {"path": "---", "text": "a\n---\nb",
+                                                                   "base_commit_sha": "1" * 40,
+                                                                   "nested": {"base_commit_sha": "2" * 40}}}]
             author = "De\"v ---\n <dev@example.invalid>"
         meta["prompts"][h or "empty%d" % i] = {
             "agent_id": {"tool": "toolx", "id": "S%d" % i, "model": "m"}, "human_author": author,
@@ -420,6 +422,11 @@ def execute_argv(args):
                 info["typed"] = typed
                 info["passed"] = recon
             events.append({"ev": "Vec", "v": classes, "obs": obs})
+        elif case["a"] == "Tok":
+            env = ArgvEnv(scratch)
+            obs, more = execute_aliastok(case, salt, scratch, {"env": env})
+            info.update(more)
+            events.append({"ev": "Tok", "val": case["val"], "obs": obs})
         else:
             env = ArgvEnv(scratch)
             conf, typed = ALIASES[case["k"]]
@@ -462,7 +469,7 @@ def _strip_globals(argv):
 
 def argv_tags(beh):
     c = beh[0]
-    return frozenset([c["a"] + ":" + (",".join(c["v"]) if c["a"] == "Vec" else c["k"])])
+    return frozenset([c["a"] + ":" + (",".join(c["v"]) if c["a"] == "Vec" else "".join(c["val"]) if c["a"] == "Tok" else c["k"])])
 
 
 # --------------------------------------------------------------------------------------------------- C16 tracker
@@ -651,3 +658,35 @@ def execute_tracker(args):
 def trk_tags(beh):
     c = beh[0]
     return frozenset([json.dumps([c["old"], c["oa"], c["new"], c["r"]])])
+
+
+# ------------------------------------------------------------------------------------- C18 alias value tokenizer
+ALIAS_CONC = {"a": ["x", "S", "7", "%", "+"], "s": [" ", "\t"], "q": ["'"], "d": ['"'], "k": ["\\"]}
+
+
+def execute_aliastok(case, salt, scratch, env_holder):
+    """abstract alias value -> what git-ai's tokenizer and the real git make of it"""
+    rnd = random.Random(salt * 31 + len(case["val"]))
+    m = {k: rnd.choice(v) for k, v in ALIAS_CONC.items()}
+    inv = {v: k for k, v in m.items()}
+    inv["\t"] = "s"
+    inv[" "] = "s"
+    value = "".join(m[c] for c in case["val"])
+    r = call([{"id": 1, "op": "alias_tokens", "value": value}])[0]
+    if "panic" in r:
+        return {"aiOk": True, "aiToks": [["?"]], "gitOk": False, "gitToks": []}, {"panic": r["panic"], "value": value}
+    ai_ok = r["tokens"] is not None
+    ai_toks = [[inv.get(ch, "?") for ch in t] for t in (r["tokens"] or [])]
+    env = env_holder["env"]
+    e = dict(env.env)
+    e["GIT_TRACE"] = "1"
+    p = subprocess.run(["/usr/bin/git", "-c", "alias.zz=" + value, "zz"], cwd=env.repo, env=e, stdout=subprocess.PIPE,
+                       stderr=subprocess.PIPE, timeout=20)
+    err = p.stderr.decode(errors="replace")
+    git_ok, git_toks = False, []
+    for ln in err.splitlines():
+        if "trace: alias expansion: zz => " in ln:
+            argv = shlex.split(ln.split("trace: alias expansion: zz => ", 1)[1])
+            git_ok = True
+            git_toks = [[inv.get(ch, "?") for ch in t] for t in argv]
+    return {"aiOk": ai_ok, "aiToks": ai_toks, "gitOk": git_ok, "gitToks": git_toks}, {"value": value, "git_stderr": err[-300:]}
